@@ -345,6 +345,12 @@ package grpcgcp
 //@   requires scRef != nil && ctx != nil && len(p.scRefs) > 0
 //@   ensures [C07.disabled] !p.gb.unresponsiveDetection ==> scRef.deCalls == old(scRef.deCalls) && scRef.refreshCnt == old(scRef.refreshCnt) && scRef.lastResp == old(scRef.lastResp) && $newCalls == old($newCalls)
 //@   ensures [C07.response] p.gb.unresponsiveDetection && rpcErr == nil ==> scRef.deCalls == 0 && scRef.refreshCnt == 0 && ns(scRef.lastResp) == $clock
+// client-side deadline-exceeded: the call's own context had a deadline that has passed and the error is the
+// DeadlineExceeded status gRPC generates locally; every other completion is a response
+//@ spec clientSideDE(ctx context.Context, rpcErr error) := rpcErr != nil && status_code(rpcErr) == 4 && err_msg(rpcErr) == err_msg(deErr) && ctx_has_deadline(ctx) && ctx_deadline_ns(ctx) <= $clock
+//@   ensures [C07.response-other] p.gb.unresponsiveDetection && !(rpcErr != nil && status_code(rpcErr) == 4 && err_msg(rpcErr) == err_msg(deErr) && ctx_has_deadline(ctx)) ==> scRef.deCalls == 0 && scRef.refreshCnt == 0 && ns(scRef.lastResp) == $clock
+//@   callsite deCallsInc#1 asserts [C07.count-only-client-de] clientSideDE(ctx, rpcErr)
+//@   callsite refresh#1 asserts [C07.rule-client-de] clientSideDE(ctx, rpcErr)
 //@   callsite refresh#1 asserts [C07.rule] p.gb.unresponsiveDetection && rpcErr != nil && scRef.deCalls >= detCalls(p) && !(ns(callStarted) < ns(lastResp)) && ns(lastResp) + satWindow(detMs(p), scRef.refreshCnt) < $clock
 //@ func (p *gcpPicker) unresponsiveWindow
 //@   requires scRef != nil
